@@ -45,7 +45,7 @@ type c01ev struct {
 
 func (e c01ev) String() string { return fmt.Sprintf("%s@%d", e.Type, e.Gen) }
 
-var c01recipes = []string{"none", "none", "R1b-reader-parked-after-reset", "R4b-namespace-added-after-flag", "R1-reader-parked-after-copy", "R2-event-parked-after-flag-read", "R3-second-reader-while-locked", "R4-namespace-added-during-unlock", "R5-event-parked-after-cache-update", "R6-slow-consumer", "ns-scope-changes", "R7-initial-add-lags-behind-view"}
+var c01recipes = []string{"none", "none", "R1b-reader-parked-after-reset", "R4b-namespace-added-after-flag", "R1-reader-parked-after-copy", "R2-event-parked-after-flag-read", "R3-second-reader-while-locked", "R4-namespace-added-during-unlock", "R5-event-parked-after-cache-update", "R6-slow-consumer", "ns-scope-changes", "R7-initial-add-lags-behind-view", "R8-namespace-list-held-during-unlock"}
 
 func TestC01(t *testing.T) {
 	e := vlib.GetEnv()
@@ -54,7 +54,7 @@ func TestC01(t *testing.T) {
 		var res vlib.Result
 		recipe := c01recipes[c.Index%len(c01recipes)]
 		opts := map[string]bool{"watch-faults": c.Index%7 == 6, "no-dynamic-ns": true}
-		if recipe == "ns-scope-changes" || strings.HasPrefix(recipe, "R4") {
+		if recipe == "ns-scope-changes" || strings.HasPrefix(recipe, "R4") || strings.HasPrefix(recipe, "R8") {
 			opts["no-dynamic-ns"] = false
 		}
 		kc := genKCase(c.Rng, opts)
@@ -94,7 +94,7 @@ func c01shape(kc *kcase, recipe string, rng interface{ IntN(int) int }) {
 	b := &kc.Hooks[0].Binds[0]
 	b.Group, b.Events, b.OnSync, b.KeepFull, b.Include = "", nil, true, true, nil
 	switch recipe {
-	case "R4-namespace-added-during-unlock", "R4b-namespace-added-after-flag":
+	case "R4-namespace-added-during-unlock", "R4b-namespace-added-after-flag", "R8-namespace-list-held-during-unlock":
 		b.SelShape, b.Sel = "ns-labels", vlib.KSel{NsLabels: map[string]string{"watch": "yes"}}
 		// no other namespace.labelSelector binding (see genKCase)
 		for hi := range kc.Hooks {
@@ -134,7 +134,7 @@ func c01shape(kc *kcase, recipe string, rng interface{ IntN(int) int }) {
 	default:
 		b.SelShape, b.Sel = "all-namespaces", vlib.KSel{}
 	}
-	if !strings.HasPrefix(recipe, "R4") {
+	if !strings.HasPrefix(recipe, "R4") && !strings.HasPrefix(recipe, "R8") {
 		kc.Between, kc.Mid = nil, nil
 	}
 }
@@ -261,6 +261,53 @@ func c01recipe(recipe string, kc *kcase) (install, drive, steady func(sys *vlib.
 		}
 		steady = func(sys *vlib.Sys, rec *krecord) {
 			applyOps(rec.VC, []kop{{Op: "put", Ns: "dyn1", Name: "r4-new", Lbl: map[string]string{"sel": "x"}}, {Op: "put", Ns: "dyn1", Name: "r4-new", Lbl: map[string]string{"sel": "y"}}}, "R4: steady state, in the namespace that appeared during the unlock", rec, sys, kc)
+		}
+	case "R8-namespace-list-held-during-unlock":
+		// a matching namespace appears while the Synchronization hook runs; the namespace callback of the
+		// target binding is held at the entry of CreateInformersForNamespace (before its list requests: a slow API round-trip) while the unlock
+		// (EnableKubeEventCb) runs completely; then the list returns. The new informers must end up unlocked.
+		var hookGate, listGate *vlib.Gate
+		install = func(sys *vlib.Sys, rec *krecord) {
+			hookGate = vlib.NewGate() // created inside the bubble: parking on it is durable
+			listGate = vlib.NewGate()
+			sys.Pts.On("op.afterHookRun", func(ev vlib.PointEvent) {
+				if ev.Args[3].(bool) && fmt.Sprint(ev.Args[2]) == "Success" && fmt.Sprint(ev.Args[0]) == kc.Hooks[0].Rel {
+					hookGate.Park()
+				}
+			})
+			// (not a list reactor of the fake client: the fake holds its mutex while reactors run, so a parked
+			// reactor would block every other client call on a mutex and freeze the bubble)
+			mon := ""
+			if h := sys.Op.HookManager.GetHook(kc.Hooks[0].Rel); h != nil {
+				for _, kb := range h.Config.OnKubernetesEvents {
+					if kb.BindingName == kc.Hooks[0].Binds[0].Name {
+						mon = kb.Monitor.Metadata.MonitorId
+					}
+				}
+			}
+			sys.Pts.On("mon.createForNs.enter", func(ev vlib.PointEvent) {
+				if mon != "" && ev.Args[0].(string) == mon && fmt.Sprint(ev.Args[1]) == "dyn1" {
+					listGate.Park()
+				}
+			})
+			sysCleanup(sys, hookGate, listGate)
+		}
+		drive = func(sys *vlib.Sys, rec *krecord) {
+			if !waitHit(sys, hookGate) {
+				return
+			}
+			rec.VC.EnsureNamespace("dyn1", map[string]string{"watch": "yes"})
+			rec.Trace = append(rec.Trace, "[R8: Synchronization hook done, unlock not yet performed] namespace dyn1 appears with labels map[watch:yes]; its first list request is held")
+			if waitHit(sys, listGate) {
+				rec.Armed[recipe] = true
+			}
+			hookGate.Release() // the unlock runs while the namespace callback waits for its list
+			sys.Advance(400 * time.Millisecond)
+			listGate.Release()
+			sys.Advance(400 * time.Millisecond)
+		}
+		steady = func(sys *vlib.Sys, rec *krecord) {
+			applyOps(rec.VC, []kop{{Op: "put", Ns: "dyn1", Name: "r8-new", Lbl: map[string]string{"sel": "x"}}, {Op: "put", Ns: "dyn1", Name: "r8-new", Lbl: map[string]string{"sel": "y"}}}, "R8: steady state, in the namespace whose list was held during the unlock", rec, sys, kc)
 		}
 	case "R5-event-parked-after-cache-update":
 		// legal duplicate: an event updates the cache and is parked; the Synchronization run then reads the
